@@ -19,6 +19,7 @@ def commands : List (String × (String → String)) := [
   ("namematch", namematch),
   ("trace", trace),
   ("api", api),
+  ("names", names),
   ("dq", dq),
   ("vhdl", vhdl),
   ("tstep", tstep),
